@@ -86,6 +86,9 @@ struct World {
     seq: u64,
     sigs: Vec<i32>,
     prev: Vec<PrevKind>,
+    /// extra sa_flags the foreign installer used (the kernel reports them back verbatim, also for
+    /// SIG_IGN / SIG_DFL where they mean nothing)
+    prev_flags: Vec<i32>,
     actions: Vec<Action>,
     gen_to_action: Vec<Option<usize>>,
     deliveries: Vec<Delivery>,
@@ -388,6 +391,7 @@ fn gen_scenario(spec: &RunSpec) -> (Vec<Vec<MOp>>, Vec<Vec<i32>>, Config) {
         let pk = if prop == "C04" { [PrevKind::Info, PrevKind::Plain, PrevKind::Info, PrevKind::Plain, PrevKind::Default, PrevKind::Ignore][sim::work(6) as usize] } else { [PrevKind::Default, PrevKind::Ignore, PrevKind::Plain, PrevKind::Info][sim::work(4) as usize] };
         prev.push(pk);
     }
+    let prev_flags: Vec<i32> = (0..nsig).map(|_| [0, 0, libc::SA_SIGINFO, libc::SA_RESTART, libc::SA_SIGINFO | libc::SA_NODEFER, libc::SA_NODEFER][sim::work(6) as usize]).collect();
     let nmut = if prop == "C18" { 2 + sim::work(2) as usize } else { 1 + sim::work(3) as usize };
     let ndel = if prop == "C04" || prop == "C03" { 1 + sim::work(2) as usize } else { sim::work(3) as usize };
     let ndel = ndel.min(5 - nmut.min(4));
@@ -493,6 +497,7 @@ fn gen_scenario(spec: &RunSpec) -> (Vec<Vec<MOp>>, Vec<Vec<i32>>, Config) {
     x.foreign_now = vec![(1, 0); sigs.len()];
     x.sigs = sigs;
     x.prev = prev;
+    x.prev_flags = prev_flags;
     x.gen_to_action = vec![None; gen];
     (muts, dels, cfg)
 }
@@ -896,12 +901,18 @@ fn exec_mop(op: &MOp, iter: &mut Option<IterBox>) {
 
 fn install_prev() {
     let x = w();
-    for (s, p) in x.sigs.iter().zip(x.prev.iter()) {
+    for (i, (s, p)) in x.sigs.iter().zip(x.prev.iter()).enumerate() {
+        let fl = x.prev_flags.get(i).copied().unwrap_or(0);
         match p {
-            PrevKind::Default => {}
-            PrevKind::Ignore => set_disposition(*s, libc::SIG_IGN, false),
-            PrevKind::Plain => set_disposition(*s, foreign_plain as usize, false),
-            PrevKind::Info => set_disposition(*s, foreign_info as usize, true),
+            // "default" installed explicitly with odd flags is still the default disposition
+            PrevKind::Default => {
+                if fl != 0 {
+                    set_disposition_flags(*s, libc::SIG_DFL, fl)
+                }
+            }
+            PrevKind::Ignore => set_disposition_flags(*s, libc::SIG_IGN, fl),
+            PrevKind::Plain => set_disposition_flags(*s, foreign_plain as usize, fl & !libc::SA_SIGINFO),
+            PrevKind::Info => set_disposition_flags(*s, foreign_info as usize, fl | libc::SA_SIGINFO),
         }
     }
 }
@@ -974,6 +985,7 @@ pub fn run(spec: &RunSpec) -> ! {
         seq: 0,
         sigs: Vec::new(),
         prev: Vec::new(),
+        prev_flags: Vec::new(),
         actions: Vec::with_capacity(64),
         gen_to_action: Vec::new(),
         deliveries: Vec::with_capacity(64),
